@@ -86,6 +86,57 @@ pub fn intersection_area(a: &BoxF, b: &BoxF) -> f64 {
     poly_area(&poly)
 }
 
+fn clip_poly(poly: &[(f64, f64)], b: &BoxF) -> Vec<(f64, f64)> {
+    let clip = b.vertices();
+    let mut poly: Vec<(f64, f64)> = poly.to_vec();
+    for i in 0..4 {
+        let (ax, ay) = clip[i];
+        let (bx, by) = clip[(i + 1) % 4];
+        let side = |p: (f64, f64)| (bx - ax) * (p.1 - ay) - (by - ay) * (p.0 - ax);
+        let mut out = Vec::with_capacity(poly.len() + 2);
+        let n = poly.len();
+        for j in 0..n {
+            let p = poly[j];
+            let q = poly[(j + 1) % n];
+            let sp = side(p);
+            let sq = side(q);
+            if sp >= 0.0 {
+                out.push(p);
+            }
+            if (sp > 0.0 && sq < 0.0) || (sp < 0.0 && sq > 0.0) {
+                let t = sp / (sp - sq);
+                out.push((p.0 + t * (q.0 - p.0), p.1 + t * (q.1 - p.1)));
+            }
+        }
+        poly = out;
+        if poly.len() < 3 {
+            return vec![];
+        }
+    }
+    poly
+}
+
+/// fraction of `a` not covered by any of `others` (inclusion-exclusion over the
+/// convex intersections; exact up to rounding)
+pub fn uncovered_share(a: &BoxF, others: &[&BoxF]) -> f64 {
+    fn rec(poly: &[(f64, f64)], others: &[&BoxF], start: usize, sign: f64, acc: &mut f64) {
+        for i in start..others.len() {
+            let p = clip_poly(poly, others[i]);
+            let ar = poly_area(&p);
+            if ar <= 0.0 {
+                continue;
+            }
+            *acc += sign * ar;
+            rec(&p, others, i + 1, -sign, acc);
+        }
+    }
+    let base = a.vertices().to_vec();
+    let mut covered = 0.0;
+    rec(&base, others, 0, 1.0, &mut covered);
+    let area = a.area();
+    ((area - covered) / area).clamp(0.0, 1.0)
+}
+
 pub fn iou(a: &BoxF, b: &BoxF) -> f64 {
     let i = intersection_area(a, b);
     if i <= 0.0 {
